@@ -20,7 +20,7 @@ use nom::{
     sequence::preceded,
     IResult,
 };
-use tracing::{trace, warn};
+use tracing::trace;
 
 impl FromStr for Database {
     type Err = DatabaseError;
@@ -49,7 +49,11 @@ impl FromStr for Database {
             } else if line.starts_with("ua_os") {
                 ua_os_entries.append(&mut whole_line("ua_os", line, parse_ua_os(line))?);
             } else if line.starts_with('[') && line.ends_with(']') {
-                cur_mod = Some(whole_line("module", line, parse_module(line))?);
+                let module = whole_line("module", line, parse_module(line))?;
+                if !is_known_module(&module.0, module.1.as_deref()) {
+                    return Err(DatabaseError::Parse(format!("unknown module: {line}")));
+                }
+                cur_mod = Some(module);
             } else if let Some((module, direction)) = cur_mod.as_ref() {
                 let (_, (name, value)) = parse_named_value(line).map_err(|err| {
                     DatabaseError::Parse(format!("fail to parse named value: {line}, {err}"))
@@ -92,7 +96,9 @@ impl FromStr for Database {
                                 temp_http_response_entries.push((label, vec![]))
                             }
                             _ => {
-                                warn!("skip `label` in unknown module `{}`: {}", module, value);
+                                return Err(DatabaseError::Parse(format!(
+                                    "`label` in unknown module `{module}`: {value}"
+                                )));
                             }
                         }
                     }
@@ -142,12 +148,16 @@ impl FromStr for Database {
                             }
                         }
                         _ => {
-                            warn!("skip `sig` in unknown module `{}`: {}", module, value);
+                            return Err(DatabaseError::Parse(format!(
+                                "`sig` in unknown module `{module}`: {value}"
+                            )));
                         }
                     },
                     "sys" if module != "mtu" => {}
                     _ => {
-                        warn!("skip unknown named value: {} = {}", name, value);
+                        return Err(DatabaseError::Parse(format!(
+                            "unknown named value: {name} = {value}"
+                        )));
                     }
                 }
             } else {
@@ -222,6 +232,15 @@ fn whole_line<T>(what: &str, line: &str, parsed: IResult<&str, T>) -> Result<T, 
             "fail to parse `{what}`: {line}, unexpected text: {remaining}"
         )))
     }
+}
+
+/// The modules of the p0f database format: `[mtu]`, `[tcp:request]`, `[tcp:response]`, `[http:request]`,
+/// `[http:response]`.
+fn is_known_module(module: &str, direction: Option<&str>) -> bool {
+    matches!(
+        (module, direction),
+        ("mtu", None) | ("tcp" | "http", Some("request" | "response"))
+    )
 }
 
 fn parse_named_value(input: &str) -> IResult<&str, (&str, &str)> {
